@@ -22,8 +22,9 @@
      12 known class "the trace of a nested run is dropped": the fault was raised inside a script function that a
         native function called through Vm::run_function; run_function keeps only the payload of the nested error,
         so the error surfaces as TaskFailure{name of that native} at the CallNative card of the outermost such
-        native: trace[0] is that card (a card of the call chain, not the failing card) and the entries after it
-        are the right call chain of that card *)
+        native (or at the DynamicCall card, when that native was called as a native function value): trace[0] is that
+        card (a card of the call chain, not the failing card) and the entries after it are the right call chain of
+        that card *)
 From Coq Require Import NArith ZArith List Bool.
 From Cao Require Export CheckUtil CardAst Compiler Vm.
 From Cao Require Import Bits VmFloat VmCheck C15Link.
@@ -307,6 +308,18 @@ Definition nested_trace_dropped (c : chainspec) (e : err) (hd : loc * resolved) 
   match e, r_kind (snd hd) with
   | ETaskFailure n _, RKNative n' =>
       str_eqb n n' && existsb (str_eqb n) reentrant_names &&
+      match c with
+      | CExact items =>
+          match after_loc (fst hd) items with
+          | Some rest => chain_exact rest tl
+          | None => false
+          end
+      | CFree => chain_free hd tl
+      end
+  | ETaskFailure n _, RKDyn _ =>
+      (* the same, the re-entrant native having been called as a native function VALUE: the head is the DynamicCall
+         card that called it *)
+      existsb (str_eqb n) reentrant_names &&
       match c with
       | CExact items =>
           match after_loc (fst hd) items with
